@@ -6,6 +6,30 @@ props = [json.loads(l) for l in open(os.path.join(HERE, "properties.jsonl"))]
 hook_commits = ["9fea0ac"]
 
 CHECKS = {
+ "C01": dict(engine="vdrv", design="3/C01",
+   technique="runtime monitoring: round-trip monitor (real assembler -> real disassembler walk -> real assembler) over the instruction corpus with operand substitution in the ASan/UBSan build, plus reference MSP430/RV32I encoders as an independent oracle",
+   text="Exploration: every tests/comparison instruction form of 49 CPUs x boundary operand substitution x load addresses is assembled, the disassembler is walked over exactly the emitted bytes (length tiling) and the rendering re-assembled at the same address (byte equality); MSP430 core and RV32I forms are also compared with encoders written from the manuals. Violations present in the unchanged tree are catalogued per (cpu, mnemonic, kind) with instance lists; anything outside the catalogue is reported.",
+   note="Renderings the assembler rejects are vacuous (counted per CPU). Operand space covered at boundary values only. CPUs without a tests/comparison file are covered from the binary side by C07."),
+ "C02": dict(engine="vdrv", design="3/C02",
+   technique="runtime monitoring: online invariant at the label-binding hook (H1, NAKEN_ASM_VERIF: pass-2 location counter == address recorded by pass 1) plus black-box marker check of the image at every label's symbol address",
+   text="Exploration: every corpus form whose operand can be a label x forward/backward reference x label value class x -optimize on/off, plus seeded mixed programs; both the hook invariant and the marker-at-symbol-address oracle are evaluated for every accepted program in the sanitizer build.",
+   note="Labels before instructions are only generated at aligned locations; conditionals/macros depending on later symbols are outside the statement and never generated."),
+ "C03": dict(engine="cli", design="3/C03",
+   technique="runtime monitoring: format decoders written from the specifications (ihex, srec, elf, wdc, uf2, bin) applied to files the real CLI writes for images known by construction, plus naken_util read-back",
+   text="Exploration: seeded segment layouts (1..6 segments, 64 KiB crossings, 24/32-bit addresses, bytes-per-address 1/2/4/8, both byte orders) x 6 output types; every record's length/checksum/address is validated and the decoded address->byte map compared with the image; files are loaded back by the real naken_util and segment edges printed.",
+   note="amiga/macho are not address-carrying round trips and are not judged here. Range formats capped at 64 MiB span."),
+ "C05": dict(engine="vdrv+cli", design="3/C05",
+   technique="runtime monitoring: reference-model oracle (directive -> image model written from the documentation) compared byte-for-byte with the image the real assembler builds under ASan/UBSan, and with decoded hex/bin files from the real CLI",
+   text="Exploration: seeded random directive programs (5..40 directives incl. backwards/overlapping .org, all data widths at range limits, strings with escapes, .resb/.resw/.align/.data_fill/.binfile, endian switches, labels and $) on CPUs with 1/2/4/8 bytes per address and both byte orders, plus an enumerated boundary suite.",
+   note="Trusts vf/ref/directives.py as the reading of the documentation; the decimal literal -9223372036854775808 is outside the domain."),
+ "C06": dict(engine="vdrv", design="3/C06",
+   technique="runtime monitoring: injectivity (pigeonhole) monitor over the real assembler's output: for one instruction form at one address, distinct accepted operand values must give distinct encodings unless they are signed/unsigned spellings of one field value",
+   text="Exploration: every corpus form with a numeric operand x ~330 probe values (0..9, +-2^k, +-2^k+-1/2, address-relative distances) assembled in the sanitizer build; accepted values grouped by emitted bytes; collisions keyed (cpu, mnemonic, operand index, wrap modulus). The many collisions of the unchanged tree are catalogued per form instance; a collision on any other form or with another modulus is reported.",
+   note="Needs no knowledge of field widths; values outside [-2^31, 2^32) are not probed (the global 64->32-bit narrowing is one separate finding). A form that rejects nothing or accepts < 2 values is non-decisive and counted as such."),
+ "C07": dict(engine="vdrv", design="3/C07",
+   technique="runtime monitoring: round-trip monitor from the binary side (real disassembler -> real assembler at the same address -> real disassembler) over the exhaustive 16-bit leading-pattern sweep in the ASan/UBSan build",
+   text="Exploration, exhaustive over the leading 16 bits in the thorough tier: every decodable pattern of every CPU is rendered, re-assembled at the same address and decoded again; a changed mnemonic or operand after numeric normalisation is a violation unless the new text is an alias that assembles to the same bytes. quick: one representative per (cpu, mnemonic, operand shape) plus a seeded sample.",
+   note="W' != W alone is not a violation (don't-care bits). Renderings the assembler rejects are vacuous."),
  "C04": dict(engine="vdrv+cli", design="3/C04",
    technique="runtime monitoring: reference-model oracle (64-bit evaluator) over .dc64 expressions assembled by the sanitizer build",
    text="Exploration: every operator sequence up to 3 (quick) / 4 (thorough) operators, unary and parenthesis placements, all literal spellings, valueless expressions, plus seeded random trees; the real evaluator's output bytes are compared with an independent reference evaluator under ASan/UBSan. Held-on-what-was-run, not a proof.",
